@@ -115,7 +115,7 @@ Proof.
 Qed.
 
 (* ---- extended to `break`, the endless `repeat`, calls of routines and `return` (Lang/Simulation3.v, SimulationTop.v) ----
-   Every program made of routine definitions (at the top level, each name once, no routine reaching itself) and of the covered
+   Every program made of routine definitions (at the top level, each name once; routines may call each other and themselves) and of the covered
    statements, if / else, blocks, `repeat while`, counted `repeat n`, `repeat with v from a to b`, `repeat n with v from a to b`, `repeat n with v cycle`, plain `repeat`, `break`, calls `f a b ...` whose arguments
    are ordinary values, and `return`, nested to any depth: the compiled code, loaded (routine bodies moved out of line) and run
    on the machine model from the initial state, finishes with exactly the events of the reference semantics. *)
@@ -136,11 +136,11 @@ Print Assumptions C01_program_with_routines_runs_as_its_source_says.
    with and frames that differ at most in the dictionary of the routine in progress; when the source says it returns, the machine
    is behind the call, the loop frames and the call frame of the routine gone *)
 Theorem C01_statement_simulation :
-  forall rt mt inl inr st, SimpleB rt mt inl inr st ->
+  forall rt mt, bodies_ok rt mt -> forall inl inr st, SimpleB rt mt inl inr st ->
   forall after im ss s sig ss' fuel, routines_loaded rt mt im -> in_loop_ok inl after -> in_ret_ok inr (m_frames s) ->
   depth_ok (m_frames s) (zlength (m_stack s)) -> sim ss s -> code_at im (m_pc s) (c_stmt rt mt false after st) ->
   Sem.exec rt mt fuel false ss st = ROk sig ss' -> outcome after im ss s sig ss' (c_stmt rt mt false after st).
-Proof. intros rt mt. exact (proj1 (simpleB_simulation rt mt)). Qed.
+Proof. intros rt mt Hb. exact (proj1 (simpleB_simulation rt mt Hb)). Qed.
 Print Assumptions C01_statement_simulation.
 
 Example C01_program_nonvacuous :
@@ -150,8 +150,13 @@ Example C01_program_nonvacuous :
                                                             SAssign "total" (RExpr (EBin BAdd (EVar "total") (ELit (LInt 1)))); SOff OpAll]);
                        SPrintln (Some (RVar "n"))]);
             SDefineRoutine "twice" ["k"] (SBlock [SCall "blink" [RVar "k"; RLit (LInt 120)] false; SAssign "k" (RLit (LInt 0)); SCall "blink" [RLit (LInt 1); RVar "k"] true; SReturn None]);
+            SDefineRoutine "down" ["n"]
+              (SBlock [SIf (RExpr (EBin BLt (EVar "n") (ELit (LInt 1)))) (SReturn None) None; SPrintln (Some (RVar "n"));
+                       SCall "up" [RExpr (EBin BSub (EVar "n") (ELit (LInt 1)))] false; SPrintln (Some (RVar "n"))]);
+            SDefineRoutine "up" ["m"] (SBlock [SCall "down" [RVar "m"] false; SAssign "m" (RLit (LInt 99))]);
             SAssign "total" (RLit (LInt 0));
             SAssign "x" (RLit (LInt 0));
+            SCall "down" [RLit (LInt 3)] false;
             SRepeat LInfinite
                     (SBlock [SAssign "x" (RExpr (EBin BAdd (EVar "x") (ELit (LInt 1))));
                              SIf (RExpr (EBin BGt (EVar "x") (ELit (LInt 2)))) SBreak None;
